@@ -1077,6 +1077,11 @@ class Symex:
                 decos = [U(d).split(".")[-1].split("(")[0] for d in fn.decorator_list]
                 bound = None if "staticmethod" in decos else recv
                 return self.call_value(Func(fn, [], fn._module, fn._qual, bound=bound), args, kw, node)
+            if self.attr_hook is not None:
+                # the attribute model of a record also resolves its methods (a callable attribute)
+                r = self.attr_hook(self, recv, name, node)
+                if r is not NotImplemented:
+                    return self.call_value(r, args, kw, node)
             return self.opaque_mcall(recv.term, name, args, kw)
         if isinstance(recv, T):
             hk = name
